@@ -141,8 +141,11 @@ META = {
                 "(C14_same_behaviour). Byte level: the outer PredictorData record (Option<bytes> scorers, bias, Option<map> tag "
                 "predictors, n_tags) decodes from `bytes ++ rest` to itself and exactly `rest`, for arbitrary scorer blobs "
                 "(C14_remainder). Tied to /repo by predictor pairs (original vs round trip, with trailing bytes) observed on texts, and "
-                "by decoding/re-encoding the outer record of the real serialised bytes with the Lean codec.",
-        "design_ref": "DESIGN.md §6 C14",
+                "by decoding/re-encoding the outer record of the real serialised bytes with the Lean codec. The anchored example "
+                "examples/embedded_device/build.rs is compiled verbatim from the working tree with the example's feature set (alloc only); the "
+                "predictor file it writes is loaded as the device does and compared with the library pipeline (oracle) and with the model "
+                "(embeddedDevice); theorems C14_embedded_device, C14_embedded_cfg_independent, C14_embedded_total.",
+        "design_ref": "DESIGN.md §6 C14, §6.1 Examples",
         "note": _common_note + "The automaton blob and the hash-map iteration order are opaque (daachorse / hashbrown contracts); the two layers are "
                 "connected only through the correspondence run, not by a theorem.",
         "technique": "Lean 4 proof: canonical-weight-vector invariant through Predictor::new; strict-decoder framing of the envelope; differential correspondence",
@@ -172,8 +175,13 @@ META = {
                 "(C16_tiling, C16_empty), they break exactly at the pipeline's W labels (C16_breaks_eq_pipeline), and for every "
                 "well-formed model the pipeline keeps one boundary per adjacent character pair of the original text "
                 "(C16_pipeline_len, using C16_norm_len, C01_scores and the C15 filter theorems). Tied to /repo by a harness driving "
-                "the real VaporettoTokenizer against the model, with offset/tiling/text/position/break oracles.",
-        "design_ref": "DESIGN.md §6 C16",
+                "the real VaporettoTokenizer against the model, with offset/tiling/text/position/break oracles. The anchored browser example "
+                "(examples/wasm/src/lib.rs) is inside the tie as well: its `impl Worker for VaporettoWorker` block is extracted from the working "
+                "tree on every run and compiled verbatim against stand-ins for gloo-worker/ouroboros; sessions of messages on one worker are "
+                "compared with the library pipeline on fresh sentences (oracle) and with the Lean model wasmSession; theorems "
+                "C16_wasm_reuse_invisible, C16_wasm_answer (one token per pipeline token, original characters, pipeline tags, surfaces "
+                "concatenate to the message), C16_wasm_rejected, C16_wasm_empty.",
+        "design_ref": "DESIGN.md §6 C16, §6.1 Examples",
         "note": _common_note + "tantivy's TextAnalyzer plumbing and Token struct are not modelled; NUL-containing text is emitted as one token (fix F-C16).",
         "technique": "translator (exhaustive tabulation -> regenerated Lean table, decide +kernel) + Lean 4 proof over byte-offset lists + differential correspondence",
     },
